@@ -16,7 +16,7 @@ extern "C" {
 
 namespace {
 
-enum { OK_KEYEXP = 1, OK_CBC = 2, OK_XTS = 3, OK_GCM = 4 };
+enum { OK_KEYEXP = 1, OK_CBC = 2, OK_XTS = 3, OK_GCM = 4, OK_CBCHUGE = 5 };
 static const int KB[3] = { 16, 24, 32 };
 static const int NR[3] = { 11, 13, 15 };
 static const int BITS[3] = { 128, 192, 256 };
@@ -540,6 +540,59 @@ struct OneShotSim : Sim {
                 r.cov.hit("oneshot_gcm_calls", 2);
         }
 
+        // One CBC call of 2^32 + 16k bytes: ciphertext / plaintext read from the aliased read-only window, output written through the aliased
+        // writable window whose single 2 MiB period is prefilled from the hidden stream. After the call the period holds the last bytes written
+        // at each offset, a pure function of the complete output: the paired execution (other prefill, other registers) must observe the same.
+        void op_cbc_huge(const Op &o, Env &e, RunResult &r)
+        {
+                int k = (int) (o.a % 3), dir_enc = (int) ((o.a >> 8) & 1), api = g_force_family_api ? 0 : (int) ((o.a >> 5) % 2);
+                int ef = (int) ((o.a >> 2) & 1), df = (int) (((o.a >> 3) & 3) % 3);
+                uint64_t blocks = (o.b & 3) ? (uint64_t) ((o.b >> 2) % 8) : (uint64_t) ((o.b >> 2) % (1 << 15)); // most cases: the length modulo 2^32 is below 8 blocks
+                uint64_t len = (1ull << 32) + 16 * blocks;
+                size_t per = huge_period();
+                const uint8_t *in = huge_in_window() + (size_t) (o.d % 4096);
+                uint8_t *out = huge_out_window() + (size_t) ((o.d >> 12) % 251);
+                uint8_t *pat = huge_out_pattern();
+                e.hidden.fill(pat, per);
+                uint8_t *key = e.mem.alloc(KB[k], 1, END_FLUSH, nullptr, "raw key", R_INPUT);
+                Rng g((uint64_t) o.c, "cbc");
+                g.fill(key, KB[k]);
+                uint8_t *enc = e.mem.alloc(16 * 15, 16, START_FLUSH, &e.hidden, "enc schedule", R_OBJECT);
+                uint8_t *dec = e.mem.alloc(16 * 15, 16, START_FLUSH, &e.hidden, "dec schedule", R_OBJECT);
+                expand(e, k, (int) (o.c & 1), key, enc, dec);
+                e.mem.snapshot(enc);
+                e.mem.snapshot(dec);
+                uint8_t *iv = e.mem.alloc(16, 16, (Place) (o.d % 3), nullptr, "cbc iv", R_INPUT, 16 * (size_t) ((o.d >> 2) % 4));
+                g.fill(iv, 16);
+                e.mem.snapshot(iv);
+                e.secrets.clear();
+                e.secrets.add_range(key, KB[k] >= 32 ? 32 : 16, "the raw key");
+                e.secrets.add_range(enc, 16 * NR[k], "an encryption round key");
+                e.secrets.add_range(dec, 16 * NR[k], "a decryption round key");
+                e.scan_secrets = true;
+                std::string nm;
+                const char *ds = dir_enc ? "enc" : "dec";
+                void *fn = dir_enc ? O.cbc_enc[k][ef] : O.cbc_dec[k][df];
+                const char *fam = dir_enc ? cbc_enc_f[ef] : cbc_dec_f[df];
+                if (api) {
+                        Slot sg;
+                        sg.set(dir_enc ? O.d_cbc_enc[k] : O.d_cbc_dec[k], fn);
+                        nm = strfmt("isal_aes_cbc_%s_%d", ds, BITS[k]);
+                        uint64_t rc = e.call(nm.c_str(), dir_enc ? O.isal_cbc_enc[k] : O.isal_cbc_dec[k], { U(in), U(iv), U(dir_enc ? enc : dec), U(out), len });
+                        e.obs(0xa18, (uint32_t) rc);
+                } else {
+                        nm = strfmt("_aes_cbc_%s_%d_%s", ds, BITS[k], fam);
+                        e.call(nm.c_str(), fn, { U(in), U(iv), U(dir_enc ? enc : dec), U(out), len });
+                }
+                e.obs(0xa19, hash_bytes(pat, per));
+                e.check_buf(iv, nm.c_str());
+                e.check_buf(enc, nm.c_str());
+                e.check_buf(dec, nm.c_str());
+                r.cov.hit(strfmt("probe_cbc_message_ge_2^32_%s_%s%s", ds, fam, blocks < 8 ? "_len_mod_2^32_below_8_blocks" : ""));
+                r.cov.state(mix64(0xc8 + k * 8 + ef * 4 + df, mix64(blocks < 8 ? blocks : 8, (uint64_t) dir_enc * 2 + api)));
+                r.cov.hit("oneshot_cbc_calls", 1);
+        }
+
         void execute(const Plan &p, Env &e, RunResult &r) override
         {
                 for (size_t i = 0; i < p.ops.size(); i++) {
@@ -551,6 +604,7 @@ struct OneShotSim : Sim {
                         case OK_CBC: op_cbc(o, e, r); break;
                         case OK_XTS: op_xts(o, e, r); break;
                         case OK_GCM: op_gcm(o, e, r); break;
+                        case OK_CBCHUGE: op_cbc_huge(o, e, r); break;
                         }
                         e.check_mem_all("end of op");
                         e.mem.release(mk);
@@ -561,3 +615,34 @@ struct OneShotSim : Sim {
 } // namespace
 
 Sim *make_oneshot_sim() { return new OneShotSim(); }
+namespace {
+// quota sim: single CBC calls of 2^32 bytes and more; the decrypt families rotate with the run index, one case in eight encrypts
+struct CbcHugeSim : OneShotSim {
+        const char *name() const override { return "cbchuge"; }
+        Plan generate(uint64_t seed, const std::string &, bool, uint64_t idx) override
+        {
+                Rng g(seed, "plan");
+                Plan p;
+                Op o;
+                o.kind = OK_CBCHUGE;
+                uint64_t a = g.below(1 << 20);
+                bool encrypt = idx % 8 == 7;
+                a = (a & ~(uint64_t) 0x118) | ((uint64_t) encrypt << 8) | ((uint64_t) ((idx + 1) % 3) << 3); // decrypt family: avx, vaes, sse, avx, ...
+                o.a = (int64_t) a;
+                o.b = (int64_t) g.below(1 << 20);
+                if (idx % 4 != 3)
+                        o.b |= 1; // three cases in four: the low 32 bits of the length are below 8 blocks
+                o.c = (int64_t) g.below(1 << 20);
+                o.d = (int64_t) g.below(1 << 20);
+                p.ops.push_back(o);
+                return p;
+        }
+        std::string render(const Plan &p) const override
+        {
+                const Op &o = p.ops.empty() ? Op() : p.ops[0];
+                return strfmt("CBCHUGE(%s, family selector %lld, length 2^32+16*%lld)", ((o.a >> 8) & 1) ? "enc" : "dec", (long long) (((o.a >> 3) & 3) % 3),
+                              (long long) ((o.b & 3) ? (o.b >> 2) % 8 : (o.b >> 2) % (1 << 15)));
+        }
+};
+} // namespace
+Sim *make_cbchuge_sim() { return new CbcHugeSim(); }
